@@ -69,6 +69,25 @@ func c02(c *ctx) {
 		cs.entries = entriesFor(r, g, 22, false, 0, alpha)
 		cases = append(cases, cs)
 	}
+	// ranges with ordinary bounds that span the surrogate block, as -switch cases next to a larger alternative: the
+	// case keys are enumerated around U+D800-U+DFFF, the characters on both sides of the gap must still be keys
+	for _, sr := range [][4]rune{{0xD7F0, 0xE00F, 0xE010, 0xF8FF}, {0xD7FF, 0xE000, 0xE001, 0xE900}, {0x80, 0xFFFF, 0x10000, 0x10FFFF}} {
+		g := &gram.Grammar{Rules: []*gram.Rule{{Name: "R0", E: gram.Seq(gram.Un(gram.KPlus, gram.Alt(
+			gram.Seq(gram.Rng(sr[0], sr[1]), gram.Un(gram.KQuery, gram.Lit("x"))),
+			gram.Seq(gram.Rng(sr[2], sr[3]), gram.Lit("y")),
+			gram.Seq(gram.Lit("a"), gram.Lit("z")))), gram.Un(gram.KNot, gram.Dot()))}}}
+		g.Number()
+		cs := &gcase{id: len(cases), g: g}
+		for _, x := range []rune{sr[0], sr[0] + 1, 0xD7FF, 0xE000, 0xE001, 0xFFFD, sr[1], sr[1] - 1, sr[2], sr[3], sr[0] - 1, sr[3] + 1, 'a', 0x7f} {
+			if x > 0x10FFFF || x >= 0xD800 && x <= 0xDFFF {
+				continue
+			}
+			cs.entries = append(cs.entries, entry{-1, string(x)}, entry{-1, string(x) + "x"}, entry{-1, string(x) + "y"}, entry{-1, "az" + string(x) + "y" + string(x)})
+		}
+		cs.entries = append(cs.entries, entry{-1, "\xed\xa0\x80"}, entry{-1, ""})
+		cases = append(cases, cs)
+		c.run.Count("grammars_with_a_range_spanning_the_surrogate_block", 1)
+	}
 	hasSwitch := map[int]bool{}
 	inlined := map[int]int{}
 	f := &family{c: c, tag: "c02", configs: []config{
